@@ -94,18 +94,17 @@ PbEnums == [LineMarking |-> NameSet(LineMarkingT), LaneletType |-> NameSet(Lanel
 
 (* sample of traffic sign element ids: enum class, member NAME, value; pb = the .proto enum of that class has the NAME *)
 SignId(c, n, v, pb) == [c |-> c, n |-> n, v |-> v, pb |-> pb]
-SignIdT == << SignId("TrafficSignIDZamunda", "MAX_SPEED", "274", TRUE), SignId("TrafficSignIDZamunda", "STOP", "206", TRUE),
-              SignId("TrafficSignIDZamunda", "YIELD", "205", TRUE), SignId("TrafficSignIDZamunda", "TOWN_SIGN", "310", TRUE),
-              SignId("TrafficSignIDZamunda", "PRIORITY", "306", TRUE),
-              SignId("TrafficSignIDZamunda", "ADDITION_SCHOOL", "1012-50", TRUE),            \* value not in the XSD
-              SignId("TrafficSignIDGermany", "MAX_SPEED", "274", TRUE), SignId("TrafficSignIDGermany", "STOP", "206", TRUE),
+SignIdT == << SignId("TrafficSignIDGermany", "MAX_SPEED", "274", TRUE), SignId("TrafficSignIDGermany", "STOP", "206", TRUE),
+              SignId("TrafficSignIDGermany", "YIELD", "205", TRUE), SignId("TrafficSignIDGermany", "TOWN_SIGN", "310", TRUE),
+              SignId("TrafficSignIDGermany", "PRIORITY", "306", TRUE),
+              SignId("TrafficSignIDGermany", "ADDITION_SCHOOL", "1012-50", TRUE),            \* value not in the XSD
               SignId("TrafficSignIDGermany", "EMERGENCY_STOP", "328", FALSE),                \* .proto: EMERYGECNY_STOP
               SignId("TrafficSignIDUsa", "MAX_SPEED", "R2-1", TRUE), SignId("TrafficSignIDUsa", "U_TURN", "R3-4", TRUE),
               SignId("TrafficSignIDUsa", "STOP", "R1-1", FALSE),                             \* neither XSD nor .proto
               SignId("TrafficSignIDSpain", "STOP", "r2", TRUE), SignId("TrafficSignIDSpain", "YIELD", "r1", TRUE),
               SignId("TrafficSignIDChina", "MAX_SPEED", "274", TRUE) >>
-(* enum class the XML reader can name for a country code (the format stores only the value; the benchmark id the country) *)
-CountryClass == [ZAM |-> {"TrafficSignIDZamunda", "TrafficSignIDGermany"}, DEU |-> {"TrafficSignIDGermany"},
+(* (TrafficSignIDZamunda is an alias of TrafficSignIDGermany.)  Enum class the XML reader can name for a country code (the format stores only the value; the benchmark id the country) *)
+CountryClass == [ZAM |-> {"TrafficSignIDGermany"}, DEU |-> {"TrafficSignIDGermany"},
                  USA |-> {"TrafficSignIDUsa"}, ESP |-> {"TrafficSignIDSpain"}, CHN |-> {"TrafficSignIDChina"}]
 
 (* ------------------------------ numbers ------------------------------------------------------------------- *)
@@ -114,6 +113,9 @@ PositiveToks == {"one", "tenth", "half", "ordinary", "tiny", "small", "big", "lo
 NumLex(t) == IF t \in {"zero", "default0"} THEN "dec0" ELSE IF t = "neg" THEN "dec-" ELSE "dec+"   \* plain decimal, never "exp"
 (* interval end points: lo < hi for the concrete table *)
 IntervalPairs == {<<"neg", "one">>, <<"zero", "ordinary">>, <<"tiny", "small">>, <<"one", "big">>, <<"half", "angle">>}
+(* orientations of shapes lie in [-2pi, 2pi], angle intervals are at most 2pi long (documented constructor preconditions) *)
+AngleToks  == {"zero", "one", "tenth", "half", "tiny", "small", "neg", "angle"}
+AnglePairs == {<<"neg", "one">>, <<"tiny", "small">>, <<"half", "angle">>}
 
 (* ------------------------------ state attributes ------------------------------------------------------------ *)
 (* <<attribute of the public state classes, short path name, XSD element ("" = none), field of obstacle.proto State?>> *)
@@ -184,8 +186,9 @@ MaxId == 99
 Has(st, a)  == \E i \in DOMAIN st.a : st.a[i].n = a                       \* state st populates attribute a
 Val(st, a)  == st.a[CHOOSE i \in DOMAIN st.a : st.a[i].n = a].v
 PopSet(st)  == {st.a[i].n : i \in DOMAIN st.a}                            \* populated attributes besides time_step
-SortIds(S)  == SelectSeq([i \in 1..MaxId |-> i], LAMBDA i : i \in S)
-IdStr(ids)  == JoinS([i \in DOMAIN SortIds(Range(ids)) |-> I2S(SortIds(Range(ids))[i])], ",")      \* id SET as text
+RECURSIVE SortIds(_)
+SortIds(S)  == IF S = {} THEN <<>> ELSE LET m == CHOOSE x \in S : \A y \in S : x <= y IN <<m>> \o SortIds(S \ {m})
+IdStr(ids)  == LET so == SortIds(Range(ids)) IN JoinS([i \in DOMAIN so |-> I2S(so[i])], ",")    \* id SET as text
 NameStr(Tb, names) == JoinS(SelectSeq(Names(Tb), LAMBDA n : n \in Range(names)), ",")               \* enum SET as text
 RECURSIVE KindOfShape(_)
 KindOfShape(sh) == IF sh.k = "group" THEN "group:" \o JoinS([i \in DOMAIN sh.parts |-> sh.parts[i].k], "+") ELSE sh.k
@@ -304,7 +307,7 @@ InterLeaves(x) ==
             Lf(K, Yi, "incoming.incomingLanelet", IdStr(inc.lan)) \o Lf(K, Yi, "incoming.successorsRight", IdStr(inc.r))
             \o Lf(K, Yi, "incoming.successorsStraight", IdStr(inc.s)) \o Lf(K, Yi, "incoming.successorsLeft", IdStr(inc.l))
             \o Lf(K, Yi, "incoming.isLeftOf", IF inc.lo = 0 THEN "None" ELSE I2S(inc.lo))])
-  \o Lf(K, Y, "crossing", IdStr(x.cross)) \o Lf(K, Y, "crossing.isNone", I2S(x.g.crossNone))
+  \o Lf(K, Y, "crossing", IdStr(x.cross))                      \* None is not observable (stored as the empty set)
 PPLeaves(p) ==
   LET K == "planning"  Y == I2S(p.id) IN
   StateLeaves(K, Y, "initialState", p.init)
@@ -339,7 +342,7 @@ SignalSuffixes == {".present", ".isNone", ".n", ".time.kind", ".time"} \cup {"."
 (* reference sets None == empty set, signal_series None == [], goal-lanelet dict None == {} (DESIGN App. C)       *)
 NoneFlags == {<<"obstacle", "signalSeries.isNone">>, <<"obstacle", "staticSeries.isNone">>,
               <<"lanelet", "stopLine.trafficSignRef.isNone">>, <<"lanelet", "stopLine.trafficLightRef.isNone">>,
-              <<"intersection", "crossing.isNone">>, <<"planning", "goalLanelets.isNone">>}
+              <<"planning", "goalLanelets.isNone">>}
 XmlNotCarried ==
   NoneFlags
   \cup {<<"trafficSign", "firstOccurrence">>}                      \* XSD 642-656: trafficSign has no such element
@@ -373,8 +376,7 @@ RealClasses == {"re:exact", "re:within_tol", "re:out_of_tol", "re:zero", "re:oth
 AllowedReal(fmt) == IF fmt = "xml" THEN {"re:exact", "re:within_tol"} ELSE {"re:exact"}   \* |x'-x| < 10^-d / bit identical
 NormLeaf(fmt, l) == IF l[4] \in AllowedReal(fmt) THEN <<l[1], l[2], l[3], "r">>
                     ELSE IF l[4] = "re:zero" THEN <<l[1], l[2], l[3], "r0">> ELSE l
-Observed(fmt, back) == [i \in DOMAIN SelectSeq(back, LAMBDA l : Carried(fmt, l)) |->
-                          NormLeaf(fmt, SelectSeq(back, LAMBDA l : Carried(fmt, l))[i])]
+Observed(fmt, back) == LET sel == SelectSeq(back, LAMBDA l : Carried(fmt, l)) IN [i \in DOMAIN sel |-> NormLeaf(fmt, sel[i])]
 SameLeaf(a, b) == a[1] = b[1] /\ a[2] = b[2] /\ a[3] = b[3]
 (* name of the first leaf on which the observed read-back differs from the expected one; "" if none *)
 Diff(fmt, exp, back) ==
@@ -417,7 +419,7 @@ AllIdSeq(d) == [i \in DOMAIN d.lanelets |-> d.lanelets[i].id] \o [i \in DOMAIN d
                \o [i \in DOMAIN d.lights |-> d.lights[i].id] \o [i \in DOMAIN d.inters |-> d.inters[i].id]
                \o Cat([i \in DOMAIN d.inters |-> [j \in DOMAIN d.inters[i].incs |-> d.inters[i].incs[j].id]])
                \o [i \in DOMAIN d.obstacles |-> d.obstacles[i].id] \o [i \in DOMAIN d.pps |-> d.pps[i].id]
-SimpleShapeOK(sh) == CASE sh.k = "rect" -> sh.l \in PositiveToks /\ sh.w \in PositiveToks
+SimpleShapeOK(sh) == CASE sh.k = "rect" -> sh.l \in PositiveToks /\ sh.w \in PositiveToks /\ sh.o \in AngleToks
                        [] sh.k = "circle" -> sh.r \in PositiveToks
                        [] sh.k = "poly" -> sh.n >= 3
                        [] OTHER -> FALSE
@@ -425,7 +427,7 @@ ShapeOK(sh) == IF sh.k = "group" THEN Len(sh.parts) >= 2 /\ \A i \in DOMAIN sh.p
 Homogeneous(sh) == sh.k # "group" \/ \A i \in DOMAIN sh.parts : sh.parts[i].k = sh.parts[1].k
 TimeOK(t, lo) == IF t.k = "exact" THEN t.t >= lo ELSE t.lo >= 0 /\ t.hi >= 1 /\ t.lo <= t.hi
 ValueOK(a, v) == CASE v.k = "exact" -> TRUE
-                   [] v.k = "interval" -> a # "position" /\ <<v.lo, v.hi>> \in IntervalPairs
+                   [] v.k = "interval" -> a # "position" /\ <<v.lo, v.hi>> \in (IF a = "orientation" THEN AnglePairs ELSE IntervalPairs)
                    [] v.k = "region" -> a = "position" /\ ShapeOK(v.sh)
                    [] v.k = "lanelets" -> a = "position"
 StateOK(st) == /\ \A i \in DOMAIN st.a : st.a[i].n \in Range(AttrOrder) /\ ValueOK(st.a[i].n, st.a[i].v)
@@ -436,8 +438,8 @@ LaneletIds(d) == IdsOf(d.lanelets)
 (* sanity every scenario of either quantifier satisfies: ids >= 1 and distinct, references resolve to the right kind, *)
 (* 2-D geometry with positive sizes, explicit sign / light positions, non-empty light cycle                            *)
 WellFormed(d) ==
-  /\ \A i \in DOMAIN AllIdSeq(d) : AllIdSeq(d)[i] \in 1..MaxId
-  /\ \A i, j \in DOMAIN AllIdSeq(d) : i # j => AllIdSeq(d)[i] # AllIdSeq(d)[j]
+  /\ LET ids == AllIdSeq(d) IN /\ \A i \in DOMAIN ids : ids[i] \in 1..MaxId
+                               /\ \A i, j \in DOMAIN ids : i # j => ids[i] # ids[j]
   /\ \A i \in DOMAIN d.lanelets : LET la == d.lanelets[i] IN
        /\ la.nv >= 2 /\ Range(la.pred) \cup Range(la.succ) \subseteq LaneletIds(d)
        /\ \A a \in Range(la.adjL) \cup Range(la.adjR) : a.id \in LaneletIds(d)
@@ -455,6 +457,8 @@ WellFormed(d) ==
        /\ o.role # "phantom" => ShapeOK(o.sh) /\ o.type \in NameSet(ObstacleTypeT)
        /\ o.role \in {"static", "dynamic"} =>
             /\ StateOK(o.init) /\ o.init.t = [k |-> "exact", t |-> 0] /\ PopSet(o.init) \subseteq Range(InitialAttrs)
+            /\ Has(o.init, "position") /\ Has(o.init, "orientation")     \* the obstacle constructors place the shape there
+            /\ (Val(o.init, "position").k = "region" => Val(o.init, "position").sh.k # "group")     \* constructor precondition
             /\ Len(o.iss) <= 1 /\ \A s \in Range(o.iss) : SignalOK(s, 0) /\ s.t = [k |-> "exact", t |-> 0]
             /\ \A s \in Range(o.ser) : SignalOK(s, 1)
             /\ (o.g.serNone = 1 => o.ser = <<>>)
@@ -468,8 +472,11 @@ WellFormed(d) ==
                                    /\ \A c \in Range(o.pred.occs) : TimeOK(c.t, 1) /\ ShapeOK(c.sh)
   /\ \A i \in DOMAIN d.pps : LET p == d.pps[i] IN
        /\ StateOK(p.init) /\ p.init.t = [k |-> "exact", t |-> 0] /\ PopSet(p.init) \subseteq Range(InitialAttrs)
+       /\ {"position", "velocity", "orientation", "yaw_rate", "slip_angle"} \subseteq PopSet(p.init)   \* PlanningProblem: mandatory
        /\ Len(p.goals) >= 1
        /\ \A gl \in Range(p.goals) : /\ StateOK(gl.st) /\ TimeOK(gl.st.t, 0) /\ Range(gl.lan) \subseteq LaneletIds(d)
+                                     /\ gl.st.t.k = "interval"                                       \* GoalRegion: intervals only
+                                     /\ \A a \in PopSet(gl.st) \ {"position"} : Val(gl.st, a).k = "interval"
                                      /\ (gl.lan # <<>>) = (Has(gl.st, "position") /\ Val(gl.st, "position").k = "lanelets")
        /\ (p.g.lanNone = 1 => \A gl \in Range(p.goals) : gl.lan = <<>>)
   /\ d.hdr.cid \in DOMAIN CountryClass /\ \A gt \in Range(d.hdr.geo) : gt.sc \in PositiveToks
@@ -514,4 +521,175 @@ PbExpressible(d) ==
   /\ \A s \in Range(d.signs) : \A e \in Range(s.els) : e.id.pb
   /\ \A sq \in Range(AllStates(d)) : /\ \A a \in PopSet(sq[1]) : AttrPb(a)
                                      /\ Has(sq[1], "position") => Val(sq[1], "position").k # "lanelets" \/ TRUE
+
+(* ------------------------------ C03: the document the contract demands ------------------------------------------- *)
+(* AbstractDoc(d): element entries (Xsd2020a) of an XML document that carries every XML-carried leaf of d, children in *)
+(* the order the XSD prescribes, numbers in plain decimal notation, enumerations by their schema values.  TLC checks   *)
+(* (MC_Codec!LawSchema) that Xsd2020a accepts it for every XmlExpressible descriptor: contract and schema agree.       *)
+El(p, ch) == <<[p |-> p, ch |-> ch, tc |-> "", tx |-> "", at |-> <<>>]>>
+ElA(p, ch, at) == <<[p |-> p, ch |-> ch, tc |-> "", tx |-> "", at |-> at]>>
+Tx(p, tc, tx) == <<[p |-> p, ch |-> <<>>, tc |-> tc, tx |-> tx, at |-> <<>>]>>
+IntC(i) == IF i > 0 THEN "int+" ELSE IF i = 0 THEN "int0" ELSE "int-"
+IntEl(p, i) == Tx(p, IntC(i), I2S(i))
+NumEl(p, tok) == Tx(p, NumLex(tok), "")
+Word(p, w) == Tx(p, "other", w)
+BoolEl(p, b) == Tx(p, "bool", IF b = 1 THEN "true" ELSE "false")
+IdAttr(i) == <<<<"id", IntC(i), I2S(i)>>>>
+RefEl(p, i) == ElA(p, <<>>, <<<<"ref", IntC(i), I2S(i)>>>>)
+Rep(name, n) == [i \in 1..n |-> name]
+PointDoc(p, x, y) == El(p, <<"x", "y">>) \o NumEl(p \o <<"x">>, x) \o NumEl(p \o <<"y">>, y)
+ShapeName(sh) == IF sh.k = "rect" THEN "rectangle" ELSE IF sh.k = "circle" THEN "circle" ELSE "polygon"
+SimpleShapeDoc(p, sh) ==            \* p = path of the rectangle / circle / polygon element
+  CASE sh.k = "rect" -> El(p, <<"length", "width", "orientation", "center">>) \o NumEl(p \o <<"length">>, sh.l)
+                        \o NumEl(p \o <<"width">>, sh.w) \o NumEl(p \o <<"orientation">>, sh.o) \o PointDoc(p \o <<"center">>, sh.cx, sh.cy)
+    [] sh.k = "circle" -> El(p, <<"radius", "center">>) \o NumEl(p \o <<"radius">>, sh.r) \o PointDoc(p \o <<"center">>, sh.cx, sh.cy)
+    [] sh.k = "poly" -> El(p, Rep("point", sh.n)) \o PointDoc(p \o <<"point">>, sh.s, sh.s)
+ShapeParts(sh) == IF sh.k = "group" THEN sh.parts ELSE <<sh>>
+ShapeChildren(sh) == [i \in DOMAIN ShapeParts(sh) |-> ShapeName(ShapeParts(sh)[i])]
+ShapeBody(p, sh) == Cat([i \in DOMAIN ShapeParts(sh) |-> SimpleShapeDoc(p \o <<ShapeName(ShapeParts(sh)[i])>>, ShapeParts(sh)[i])])
+TimeDoc(p, t) == IF t.k = "exact" THEN El(p, <<"exact">>) \o IntEl(p \o <<"exact">>, t.t)
+                 ELSE El(p, <<"intervalStart", "intervalEnd">>) \o IntEl(p \o <<"intervalStart">>, t.lo) \o IntEl(p \o <<"intervalEnd">>, t.hi)
+ValueDoc(p, a, v, lan) ==
+  CASE v.k = "exact" /\ a = "position" -> El(p, <<"point">>) \o PointDoc(p \o <<"point">>, v.x, v.y)
+    [] v.k = "exact" -> El(p, <<"exact">>) \o NumEl(p \o <<"exact">>, v.x)
+    [] v.k = "interval" -> El(p, <<"intervalStart", "intervalEnd">>) \o NumEl(p \o <<"intervalStart">>, v.lo) \o NumEl(p \o <<"intervalEnd">>, v.hi)
+    [] v.k = "region" -> El(p, ShapeChildren(v.sh)) \o ShapeBody(p, v.sh)
+    [] v.k = "lanelets" -> El(p, Rep("lanelet", Len(lan))) \o Cat([i \in DOMAIN lan |-> RefEl(p \o <<"lanelet">>, lan[i])])
+StateAttrSeq(st) == SelectSeq(AttrOrder, LAMBDA a : Has(st, a))
+StateDoc(p, st, lan) ==
+  El(p, <<"time">> \o [i \in DOMAIN StateAttrSeq(st) |-> AttrXml(StateAttrSeq(st)[i])])
+  \o TimeDoc(p \o <<"time">>, st.t)
+  \o Cat([i \in DOMAIN StateAttrSeq(st) |-> ValueDoc(p \o <<AttrXml(StateAttrSeq(st)[i])>>, StateAttrSeq(st)[i], Val(st, StateAttrSeq(st)[i]), lan)])
+SigSeq(sg) == SelectSeq(SignalOrder, LAMBDA n : SigHas(sg, n))
+SignalDoc(p, sg) == El(p, <<"time">> \o [i \in DOMAIN SigSeq(sg) |-> SignalXml[SigSeq(sg)[i]]]) \o TimeDoc(p \o <<"time">>, sg.t)
+                    \o Cat([i \in DOMAIN SigSeq(sg) |-> BoolEl(p \o <<SignalXml[SigSeq(sg)[i]]>>, SigVal(sg, SigSeq(sg)[i]))])
+OccSetDoc(p, occs) ==
+  El(p, Rep("occupancy", Len(occs)))
+  \o Cat([i \in DOMAIN occs |-> El(p \o <<"occupancy">>, <<"shape", "time">>)
+                                \o El(p \o <<"occupancy", "shape">>, ShapeChildren(occs[i].sh)) \o ShapeBody(p \o <<"occupancy", "shape">>, occs[i].sh)
+                                \o TimeDoc(p \o <<"occupancy", "time">>, occs[i].t)])
+Root == <<"commonRoad">>
+ObstacleDoc(o) ==
+  LET p == Root \o <<o.role \o "Obstacle">>
+      typeDoc == Word(p \o <<"type">>, XmlVal(ObstacleTypeT, o.type))
+      shapeDoc == El(p \o <<"shape">>, ShapeChildren(o.sh)) \o ShapeBody(p \o <<"shape">>, o.sh)
+  IN CASE o.role = "static" -> ElA(p, <<"type", "shape", "initialState">>, IdAttr(o.id)) \o typeDoc \o shapeDoc
+                               \o StateDoc(p \o <<"initialState">>, o.init, <<>>)
+       [] o.role = "environment" -> ElA(p, <<"type", "shape">>, IdAttr(o.id)) \o typeDoc \o shapeDoc
+       [] o.role = "phantom" -> ElA(p, <<"occupancySet">>, IdAttr(o.id)) \o OccSetDoc(p \o <<"occupancySet">>, o.pred.occs)
+       [] o.role = "dynamic" ->
+            ElA(p, <<"type", "shape", "initialState">> \o (IF o.iss # <<>> THEN <<"initialSignalState">> ELSE <<>>)
+                   \o <<IF o.pred.k = "traj" THEN "trajectory" ELSE "occupancySet">> \o (IF o.ser # <<>> THEN <<"signalSeries">> ELSE <<>>),
+                IdAttr(o.id))
+            \o typeDoc \o shapeDoc \o StateDoc(p \o <<"initialState">>, o.init, <<>>)
+            \o Cat([i \in DOMAIN o.iss |-> SignalDoc(p \o <<"initialSignalState">>, o.iss[i])])
+            \o (IF o.pred.k = "traj"
+                THEN El(p \o <<"trajectory">>, Rep("state", Len(o.pred.states)))
+                     \o Cat([i \in DOMAIN o.pred.states |-> StateDoc(p \o <<"trajectory", "state">>, o.pred.states[i], <<>>)])
+                ELSE OccSetDoc(p \o <<"occupancySet">>, o.pred.occs))
+            \o (IF o.ser # <<>> THEN El(p \o <<"signalSeries">>, Rep("signalState", Len(o.ser)))
+                                     \o Cat([i \in DOMAIN o.ser |-> SignalDoc(p \o <<"signalSeries", "signalState">>, o.ser[i])])
+                ELSE <<>>)
+BoundDoc(p, la, lm) == El(p, Rep("point", la.nv) \o <<"lineMarking">>) \o PointDoc(p \o <<"point">>, la.geo, la.geo)
+                       \o Word(p \o <<"lineMarking">>, XmlVal(LineMarkingT, lm))
+AdjDoc(p, adj) == Cat([i \in DOMAIN adj |-> ElA(p, <<>>, <<<<"ref", IntC(adj[i].id), I2S(adj[i].id)>>,
+                                                           <<"drivingDir", "other", IF adj[i].same = 1 THEN "same" ELSE "opposite">>>>)])
+EnumSeq(Tb, names) == SelectSeq(Names(Tb), LAMBDA n : n \in Range(names))
+LaneletDoc(la) ==
+  LET p == Root \o <<"lanelet">>  ty == EnumSeq(LaneletTypeT, la.types)  uo == EnumSeq(RoadUserT, la.uow)  ub == EnumSeq(RoadUserT, la.ubi)
+      refs(name, ids) == Cat([i \in DOMAIN SortIds(Range(ids)) |-> RefEl(p \o <<name>>, SortIds(Range(ids))[i])])
+      n(ids) == Cardinality(Range(ids))
+  IN ElA(p, <<"leftBound", "rightBound">> \o Rep("predecessor", n(la.pred)) \o Rep("successor", n(la.succ))
+            \o (IF la.adjL # <<>> THEN <<"adjacentLeft">> ELSE <<>>) \o (IF la.adjR # <<>> THEN <<"adjacentRight">> ELSE <<>>)
+            \o (IF la.stop # <<>> THEN <<"stopLine">> ELSE <<>>) \o Rep("laneletType", Len(ty)) \o Rep("userOneWay", Len(uo))
+            \o Rep("userBidirectional", Len(ub)) \o Rep("trafficSignRef", n(la.signs)) \o Rep("trafficLightRef", n(la.lights)),
+         IdAttr(la.id))
+     \o BoundDoc(p \o <<"leftBound">>, la, la.lml) \o BoundDoc(p \o <<"rightBound">>, la, la.lmr)
+     \o refs("predecessor", la.pred) \o refs("successor", la.succ) \o AdjDoc(p \o <<"adjacentLeft">>, la.adjL) \o AdjDoc(p \o <<"adjacentRight">>, la.adjR)
+     \o Cat([i \in DOMAIN la.stop |-> LET q == p \o <<"stopLine">>  s == la.stop[i] IN
+               El(q, <<"point", "point", "lineMarking">> \o Rep("trafficSignRef", n(s.sref)) \o Rep("trafficLightRef", n(s.lref)))
+               \o PointDoc(q \o <<"point">>, la.geo, la.geo) \o Word(q \o <<"lineMarking">>, XmlVal(LineMarkingT, s.lm))
+               \o Cat([j \in DOMAIN s.sref |-> RefEl(q \o <<"trafficSignRef">>, s.sref[j])])
+               \o Cat([j \in DOMAIN s.lref |-> RefEl(q \o <<"trafficLightRef">>, s.lref[j])])])
+     \o Cat([i \in DOMAIN ty |-> Word(p \o <<"laneletType">>, XmlVal(LaneletTypeT, ty[i]))])
+     \o Cat([i \in DOMAIN uo |-> Word(p \o <<"userOneWay">>, XmlVal(RoadUserT, uo[i]))])
+     \o Cat([i \in DOMAIN ub |-> Word(p \o <<"userBidirectional">>, XmlVal(RoadUserT, ub[i]))])
+     \o refs("trafficSignRef", la.signs) \o refs("trafficLightRef", la.lights)
+PosExactDoc(p, pos) == Cat([i \in DOMAIN pos |-> El(p, <<"point">>) \o PointDoc(p \o <<"point">>, pos[i].x, pos[i].y)])
+SignDoc(s) ==
+  LET p == Root \o <<"trafficSign">> IN
+  ElA(p, Rep("trafficSignElement", Len(s.els)) \o (IF s.pos # <<>> THEN <<"position">> ELSE <<>>) \o <<"virtual">>, IdAttr(s.id))
+  \o Cat([i \in DOMAIN s.els |-> El(p \o <<"trafficSignElement">>, <<"trafficSignID">> \o Rep("additionalValue", Len(s.els[i].av)))
+                                 \o Tx(p \o <<"trafficSignElement", "trafficSignID">>, "other", s.els[i].id.v)
+                                 \o Cat([j \in DOMAIN s.els[i].av |-> Word(p \o <<"trafficSignElement", "additionalValue">>, s.els[i].av[j])])])
+  \o PosExactDoc(p \o <<"position">>, s.pos) \o BoolEl(p \o <<"virtual">>, s.virt)
+LightDoc(t) ==
+  LET p == Root \o <<"trafficLight">> IN
+  ElA(p, <<"cycle">> \o (IF t.pos # <<>> THEN <<"position">> ELSE <<>>) \o <<"direction", "active">>, IdAttr(t.id))
+  \o El(p \o <<"cycle">>, Rep("cycleElement", Len(t.cyc)) \o (IF t.off > 0 THEN <<"timeOffset">> ELSE <<>>))
+  \o Cat([i \in DOMAIN t.cyc |-> El(p \o <<"cycle", "cycleElement">>, <<"duration", "color">>)
+                                 \o IntEl(p \o <<"cycle", "cycleElement", "duration">>, t.cyc[i].d)
+                                 \o Word(p \o <<"cycle", "cycleElement", "color">>, XmlVal(LightStateT, t.cyc[i].c))])
+  \o (IF t.off > 0 THEN IntEl(p \o <<"cycle", "timeOffset">>, t.off) ELSE <<>>)        \* 675: positiveInteger, 0 = absent
+  \o PosExactDoc(p \o <<"position">>, t.pos) \o Word(p \o <<"direction">>, XmlVal(LightDirT, t.dir)) \o BoolEl(p \o <<"active">>, t.act)
+InterDoc(x) ==
+  LET p == Root \o <<"intersection">>  n(ids) == Cardinality(Range(ids)) IN
+  ElA(p, Rep("incoming", Len(x.incs)) \o (IF x.cross # <<>> THEN <<"crossing">> ELSE <<>>), IdAttr(x.id))
+  \o Cat([i \in DOMAIN x.incs |-> LET q == p \o <<"incoming">>  inc == x.incs[i] IN
+            ElA(q, Rep("incomingLanelet", n(inc.lan)) \o Rep("successorsRight", n(inc.r)) \o Rep("successorsStraight", n(inc.s))
+                   \o Rep("successorsLeft", n(inc.l)) \o (IF inc.lo # 0 THEN <<"isLeftOf">> ELSE <<>>), IdAttr(inc.id))
+            \o Cat([j \in DOMAIN inc.lan |-> RefEl(q \o <<"incomingLanelet">>, inc.lan[j])])
+            \o Cat([j \in DOMAIN inc.r |-> RefEl(q \o <<"successorsRight">>, inc.r[j])])
+            \o Cat([j \in DOMAIN inc.s |-> RefEl(q \o <<"successorsStraight">>, inc.s[j])])
+            \o Cat([j \in DOMAIN inc.l |-> RefEl(q \o <<"successorsLeft">>, inc.l[j])])
+            \o (IF inc.lo # 0 THEN RefEl(q \o <<"isLeftOf">>, inc.lo) ELSE <<>>)])
+  \o (IF x.cross # <<>> THEN El(p \o <<"crossing">>, Rep("crossingLanelet", n(x.cross)))
+                             \o Cat([j \in DOMAIN x.cross |-> RefEl(p \o <<"crossing", "crossingLanelet">>, x.cross[j])])
+      ELSE <<>>)
+PPDoc(pp) ==
+  LET p == Root \o <<"planningProblem">> IN
+  ElA(p, <<"initialState">> \o Rep("goalState", Len(pp.goals)), IdAttr(pp.id))
+  \o StateDoc(p \o <<"initialState">>, pp.init, <<>>)
+  \o Cat([i \in DOMAIN pp.goals |-> StateDoc(p \o <<"goalState">>, pp.goals[i].st, pp.goals[i].lan)])
+HeaderDoc(d) ==
+  LET h == d.hdr  p == Root \o <<"location">>  tg == EnumSeq(TagT, h.tags)
+      n(s) == Len(s)
+  IN ElA(Root, <<"location", "scenarioTags">> \o Rep("lanelet", n(d.lanelets)) \o Rep("trafficSign", n(d.signs))
+               \o Rep("trafficLight", n(d.lights)) \o Rep("intersection", n(d.inters))
+               \o Cat([r \in 1..4 |-> LET role == <<"static", "dynamic", "phantom", "environment">>[r] IN
+                        Rep(role \o "Obstacle", Cardinality({i \in DOMAIN d.obstacles : d.obstacles[i].role = role}))])
+               \o Rep("planningProblem", n(d.pps)),
+         <<<<"commonRoadVersion", "other", "2020a">>, <<"benchmarkID", "other", h.cid \o "_Test-1">>, <<"date", "date", "">>,
+           <<"author", "other", "crv-author">>, <<"affiliation", "other", "crv-affiliation">>, <<"source", "other", "crv-source">>,
+           <<"timeStepSize", NumLex(h.dt), "">>>>)
+     \o El(p, <<"geoNameId", "gpsLatitude", "gpsLongitude">> \o (IF h.geo # <<>> THEN <<"geoTransformation">> ELSE <<>>)
+              \o (IF h.env # <<>> THEN <<"environment">> ELSE <<>>))
+     \o IntEl(p \o <<"geoNameId">>, h.gid) \o NumEl(p \o <<"gpsLatitude">>, h.lat) \o NumEl(p \o <<"gpsLongitude">>, h.lon)
+     \o Cat([i \in DOMAIN h.geo |-> LET q == p \o <<"geoTransformation">> IN
+               El(q, <<"geoReference", "additionalTransformation">>) \o Word(q \o <<"geoReference">>, h.geo[i].ref)
+               \o El(q \o <<"additionalTransformation">>, <<"xTranslation", "yTranslation", "zRotation", "scaling">>)
+               \o NumEl(q \o <<"additionalTransformation", "xTranslation">>, h.geo[i].xt)
+               \o NumEl(q \o <<"additionalTransformation", "yTranslation">>, h.geo[i].yt)
+               \o NumEl(q \o <<"additionalTransformation", "zRotation">>, h.geo[i].zr)
+               \o NumEl(q \o <<"additionalTransformation", "scaling">>, h.geo[i].sc)])
+     \o Cat([i \in DOMAIN h.env |-> LET q == p \o <<"environment">> IN
+               El(q, <<"time", "timeOfDay", "weather", "underground">>) \o Tx(q \o <<"time">>, "time", "")
+               \o Word(q \o <<"timeOfDay">>, XmlVal(TimeOfDayT, h.env[i].tod)) \o Word(q \o <<"weather">>, XmlVal(WeatherT, h.env[i].w))
+               \o Word(q \o <<"underground">>, XmlVal(UndergroundT, h.env[i].u))])
+     \o El(Root \o <<"scenarioTags">>, [i \in DOMAIN tg |-> XmlVal(TagT, tg[i])])
+     \o Cat([i \in DOMAIN tg |-> Tx(Root \o <<"scenarioTags", XmlVal(TagT, tg[i])>>, "empty", "")])
+RoleSorted(obs) == Cat([r \in 1..4 |-> SelectSeq(obs, LAMBDA o : o.role = <<"static", "dynamic", "phantom", "environment">>[r])])
+AbstractDoc(d) == HeaderDoc(d) \o Cat(Map(d.lanelets, LaneletDoc)) \o Cat(Map(d.signs, SignDoc)) \o Cat(Map(d.lights, LightDoc))
+                  \o Cat(Map(d.inters, InterDoc)) \o Cat(Map(RoleSorted(d.obstacles), ObstacleDoc)) \o Cat(Map(d.pps, PPDoc))
+(* ids and refs of that document *)
+DocIds(d) == [i \in DOMAIN d.lanelets |-> <<Root \o <<"lanelet">>, I2S(d.lanelets[i].id)>>]
+             \o [i \in DOMAIN d.signs |-> <<Root \o <<"trafficSign">>, I2S(d.signs[i].id)>>]
+             \o [i \in DOMAIN d.lights |-> <<Root \o <<"trafficLight">>, I2S(d.lights[i].id)>>]
+             \o [i \in DOMAIN d.inters |-> <<Root \o <<"intersection">>, I2S(d.inters[i].id)>>]
+             \o Cat([i \in DOMAIN d.inters |-> [j \in DOMAIN d.inters[i].incs |-> <<Root \o <<"intersection", "incoming">>, I2S(d.inters[i].incs[j].id)>>]])
+             \o [i \in DOMAIN d.obstacles |-> <<Root \o <<d.obstacles[i].role \o "Obstacle">>, I2S(d.obstacles[i].id)>>]
+             \o [i \in DOMAIN d.pps |-> <<Root \o <<"planningProblem">>, I2S(d.pps[i].id)>>]
+DocRefs(d) == LET ents == AbstractDoc(d) IN
+              Cat([i \in DOMAIN ents |-> Cat([j \in DOMAIN ents[i].at |-> IF ents[i].at[j][1] = "ref" THEN <<ents[i].at[j][3]>> ELSE <<>>])])
+ContractDocValid(d) == SchemaAccepts(AbstractDoc(d), DocIds(d), DocRefs(d))
 =============================================================================
